@@ -608,60 +608,107 @@ func c11Plumbing(p *Prog, r *Report, rule string) {
 	}
 	r.Floor(rule, "tx-store-methods", n, 7)
 	_ = root
-	// (2) ctx functions of both clients and the value handed to CreateTx
+	// (2) the context decorator of both clients: whatever form it has (a method of the handle, a function returning
+	// a closure, a literal), the function handed to CreateTx and applied by Commit / Rollback attaches the handle's
+	// id the way the server / the usecases read it
 	for _, pk := range []string{"pkg/inline/db", pkgExtDB} {
-		ctxK := "(*" + pk + ".tx).ctx"
-		fi := p.Func(ctxK)
-		if fi == nil {
-			r.Undecided(rule, ctxK, "", "tx.ctx not found")
+		pkg := p.Pkg(pk)
+		if pkg == nil {
+			r.Undecided(rule, pk, "", "package not found")
 			continue
 		}
-		info := fi.Pkg.TypesInfo
-		good := false
-		what := ""
-		ast.Inspect(fi.Decl.Body, func(x ast.Node) bool {
-			rs, ok := x.(*ast.ReturnStmt)
-			if !ok || len(rs.Results) != 1 {
-				return true
-			}
-			c, ok := ast.Unparen(rs.Results[0]).(*ast.CallExpr)
+		info := pkg.TypesInfo
+		// attaches: the expression is the attaching call with a transaction id as its value
+		attaches := func(e ast.Expr) (bool, string) {
+			c, ok := ast.Unparen(e).(*ast.CallExpr)
 			if !ok {
-				return true
+				return false, ""
+			}
+			isID := func(a ast.Expr) bool {
+				switch x := ast.Unparen(a).(type) {
+				case *ast.SelectorExpr:
+					return x.Sel.Name == "id"
+				case *ast.Ident:
+					o := objOf(info, x)
+					if v, ok := o.(*types.Var); ok && !v.IsField() {
+						bt, isB := v.Type().Underlying().(*types.Basic)
+						return isB && bt.Kind() == types.String
+					}
+				}
+				return false
 			}
 			if pk == "pkg/inline/db" {
-				if p.callIs(fi.Pkg, c, "internal/model.StoreTxId") && len(c.Args) == 2 {
-					if sel, ok := c.Args[1].(*ast.SelectorExpr); ok && sel.Sel.Name == "id" {
-						good = true
+				if p.callIs(pkg, c, "internal/model.StoreTxId") && len(c.Args) == 2 && isID(c.Args[1]) {
+					return true, "model.StoreTxId(ctx, id)"
+				}
+				return false, "model.StoreTxId(ctx, id)"
+			}
+			if isFunc(info, c, "google.golang.org/grpc/metadata", "AppendToOutgoingContext") && len(c.Args) == 3 {
+				key := exprObjKey(info, c.Args[1])
+				return isID(c.Args[2]) && key == "internal/utils/grpc/interceptors/server.TxIdKey", "metadata key " + key
+			}
+			return false, "metadata.AppendToOutgoingContext(ctx, TxIdKey, id)"
+		}
+		// decoratorReturn resolves a function-valued expression to the expression its function returns
+		var decoratorReturn func(e ast.Expr, depth int) ast.Expr
+		singleReturn := func(body *ast.BlockStmt) ast.Expr {
+			var res ast.Expr
+			n := 0
+			walkNoLit(body, func(x ast.Node) bool {
+				if rs, ok := x.(*ast.ReturnStmt); ok && len(rs.Results) == 1 {
+					res = rs.Results[0]
+					n++
+				}
+				return true
+			})
+			if n == 1 {
+				return res
+			}
+			return nil
+		}
+		decoratorReturn = func(e ast.Expr, depth int) ast.Expr {
+			if depth > 3 {
+				return nil
+			}
+			switch x := ast.Unparen(e).(type) {
+			case *ast.FuncLit:
+				return singleReturn(x.Body)
+			case *ast.SelectorExpr:
+				if fn, ok := info.Uses[x.Sel].(*types.Func); ok {
+					if fi := p.Funcs[fkey(fn)]; fi != nil && fi.Decl.Body != nil {
+						return singleReturn(fi.Decl.Body)
 					}
 				}
-				what = "model.StoreTxId(ctx, t.id)"
-			} else {
-				if isFunc(info, c, "google.golang.org/grpc/metadata", "AppendToOutgoingContext") && len(c.Args) == 3 {
-					key := exprObjKey(info, c.Args[1])
-					if sel, ok := c.Args[2].(*ast.SelectorExpr); ok && sel.Sel.Name == "id" && key == "internal/utils/grpc/interceptors/server.TxIdKey" {
-						good = true
+			case *ast.Ident:
+				if fn, ok := info.Uses[x].(*types.Func); ok {
+					if fi := p.Funcs[fkey(fn)]; fi != nil && fi.Decl.Body != nil {
+						return singleReturn(fi.Decl.Body)
 					}
-					what = "metadata key " + key
+				}
+			case *ast.CallExpr:
+				// a function that builds the decorator: txCtx(id) returning func(ctx) ctx
+				if callee := p.staticCallee(pkg, x); callee != nil && callee.Decl.Body != nil {
+					if ret := singleReturn(callee.Decl.Body); ret != nil {
+						return decoratorReturn(ret, depth+1)
+					}
 				}
 			}
-			return true
-		})
-		r.Check(good, rule, ctxK, p.pos(fi.Decl), "tx.ctx = "+what, "tx.ctx does not attach the transaction id the way the server/usecases read it ("+what+")")
-		// Begin hands t.ctx to CreateTx; Commit/Rollback use t.ctx(ctx)
+			return nil
+		}
 		bk := "(*" + pk + ".db).Begin"
 		if b := p.Func(bk); b != nil {
-			ok := false
+			ok, what := false, ""
 			ast.Inspect(b.Decl.Body, func(x ast.Node) bool {
 				if c, isC := x.(*ast.CallExpr); isC && p.callIs(b.Pkg, c, "fs_db.CreateTx") && len(c.Args) == 3 {
-					if sel, isS := c.Args[2].(*ast.SelectorExpr); isS {
-						if fn, isF := b.Pkg.TypesInfo.Uses[sel.Sel].(*types.Func); isF && fkey(fn) == ctxK {
-							ok = true
-						}
+					if ret := decoratorReturn(c.Args[2], 0); ret != nil {
+						ok, what = attaches(ret)
 					}
 				}
 				return true
 			})
-			r.Check(ok, rule, bk+"#ctxFn", p.pos(b.Decl), "CreateTx(db, &t, t.ctx)", "Begin does not hand tx.ctx to CreateTx")
+			r.Check(ok, rule, bk+"#ctxFn", p.pos(b.Decl), "the decorator handed to CreateTx attaches the handle's id: "+what, "Begin does not hand CreateTx a context decorator that attaches the transaction id the way the server/usecases read it ("+what+")")
+		} else {
+			r.Undecided(rule, bk, "", "not found")
 		}
 		for _, m := range []string{"Commit", "Rollback"} {
 			mk := "(*" + pk + ".tx)." + m
@@ -673,13 +720,17 @@ func c11Plumbing(p *Prog, r *Report, rule string) {
 			ok := false
 			ast.Inspect(mf.Decl.Body, func(x ast.Node) bool {
 				if c, isC := x.(*ast.CallExpr); isC && len(c.Args) >= 1 {
-					if ac, isA := ast.Unparen(c.Args[0]).(*ast.CallExpr); isA && p.callIs(mf.Pkg, ac, ctxK) {
-						ok = true
+					if ac, isA := ast.Unparen(c.Args[0]).(*ast.CallExpr); isA && len(ac.Args) == 1 {
+						if ret := decoratorReturn(ac.Fun, 0); ret != nil {
+							if a, _ := attaches(ret); a {
+								ok = true
+							}
+						}
 					}
 				}
 				return true
 			})
-			r.Check(ok, rule, mk+"#ctx", p.pos(mf.Decl), m+" passes t.ctx(ctx)", m+" does not pass t.ctx(ctx): it acts on no transaction")
+			r.Check(ok, rule, mk+"#ctx", p.pos(mf.Decl), m+" applies the id-attaching decorator to its context", m+" does not apply the id-attaching decorator to its context: it acts on no transaction")
 		}
 	}
 	// (3) interceptors read the constant and store with StoreTxId; installed in app.New
